@@ -80,6 +80,71 @@ def greedy_vc(N, T, V, batch_first, with_lens):
                            "boolean-mask selection + masked_scatter = stable row-major compaction (vf/pyvc/ctensor.py)"])
 
 
+def slp_p_vc(eos_set):
+    """P rung: sequence_log_probs (tensor input, sequence dimension 0) for SYMBOLIC sequence length T, batch size B and vocabulary V.
+    log_softmax is an uninterpreted element function LS(t, b, v) (only its values at the chosen tokens matter); `_lens_from_eos`
+    is replaced by its contract (first-eos length, C01.P.lens_first_eos); the final reduction has the assumed partial-sum contract.
+    Proved for a skolem position (t0, b0): the result is the sum over t of
+        LS(t, b, hyp[t, b])  if 0 <= hyp[t, b] < V and t <= first eos position (eos configured) else 0."""
+    import pydrobert.torch._decoding as D
+    from vf.pyvc import symtensor as stn
+
+    T, B, V, T0, B0, EOSV = z3.Ints("T B V t0 b0 eos")
+    HYPF = z3.Function("hyp", z3.IntSort(), z3.IntSort(), z3.IntSort())
+    LS = z3.Function("log_softmax", z3.IntSort(), z3.IntSort(), z3.IntSort(), z3.RealSort())
+    LOGIT = z3.Function("logit", z3.IntSort(), z3.IntSort(), z3.IntSort(), z3.RealSort())
+    FE = z3.Function("first_eos_len", z3.IntSort(), z3.IntSort())  # b -> index of the first eos in column b, T if none
+    name = "sequence_log_probs[symbolic T, B, V; dim=0; eos=%s]" % ("set" if eos_set else "unset")
+    b_ = z3.Int("b_q")
+
+    def thunk(I):
+        I.stubs.update(stn.stubs())
+        logits = stn.ST((T, B, V), lambda t, b, v: LOGIT(ip.to_z3(t), ip.to_z3(b), ip.to_z3(v)), "float")
+        hyp = stn.ST((T, B), lambda t, b: HYPF(ip.to_z3(t), ip.to_z3(b)), "long")
+
+        def log_softmax(I2, x, dim=-1, **k):
+            I2.ex.oblige("log_softmax.over_the_class_dimension_of_the_logits", z3.And(z3.BoolVal(dim in (-1, 2) and x is logits)))
+            return stn.ST((T, B, V), lambda t, b, v: LS(ip.to_z3(t), ip.to_z3(b), ip.to_z3(v)), "float")
+
+        I.stubs["torch.nn.functional.log_softmax"] = I.stubs["torch.log_softmax"] = log_softmax
+
+        def lens_contract(I2, a, k):
+            tok, e, d = a[0], a[1], a[2]
+            I2.ex.oblige("lens.called_on_hyp_eos_dim0", z3.And(z3.BoolVal(d == 0 and tok is hyp), ip.to_z3(e) == EOSV))
+            bound = lambda bb: z3.Implies(z3.And(0 <= bb, bb < B), z3.And(0 <= FE(bb), FE(bb) <= T))
+            I2.ex.assume(z3.ForAll([b_], bound(b_)))
+            I2.ex.instance(bound(B0))
+            return stn.ST((B,), lambda bb: FE(ip.to_z3(bb)), "long")
+
+        I.contracts["pydrobert.torch._string._lens_from_eos"] = lens_contract
+        out = I.call(D.sequence_log_probs, [logits, hyp, 0, EOSV if eos_set else None], {})
+        sums = [x for x in I.ex.ghost.get("sums", []) if x.get("kind") == "sum"]
+        I.ex.ghost["the_sum"] = sums[-1] if sums else None
+        return out
+
+    def post(p):
+        if not api.returns(p) or not hasattr(p.value, "elem") or p.ghost.get("the_sum") is None:
+            return False
+        sm = p.ghost["the_sum"]
+        tok = HYPF(T0, B0)
+        counted = z3.And(0 <= tok, tok < V)
+        if eos_set:
+            counted = z3.And(counted, T0 <= FE(B0))  # up to and including the first eos
+        want = z3.If(counted, LS(T0, B0, tok), z3.RealVal(0))
+        return [("result_is_the_sum_over_the_sequence_dimension", z3.And(z3.BoolVal(len(p.value.shape) == 1), ip.to_z3(p.value.shape[0]) == B, sm["T"] == T, ip.to_z3(p.value.elem(B0)) == sm["S"](B0, T))),
+                ("summand_is_the_log_softmax_of_the_chosen_token_or_zero", ip.to_z3(sm["val"]([B0], T0)) == want)]
+
+    return VC("C07.P.slp_summand", name, M, "_sequence_log_probs_tensor", thunk, pre=[T >= 0, B >= 1, V >= 1, 0 <= T0, T0 < T, 0 <= B0, B0 < B], posts=[("sum_of_chosen_log_softmax_values", post)],
+              inputs={"T": T, "B": B, "V": V}, timeout_ms=30000,
+              twins=[("eos_itself_excluded", lambda p: (ip.to_z3(p.ghost["the_sum"]["val"]([B0], T0)) == z3.If(z3.And(0 <= HYPF(T0, B0), HYPF(T0, B0) < V, T0 < FE(B0)), LS(T0, B0, HYPF(T0, B0)), z3.RealVal(0))) if api.returns(p) and p.ghost.get("the_sum") else None)] if eos_set else [],
+              assumptions=["log_softmax over the class dimension is an uninterpreted element function; sum over a symbolic extent = partial sums (assumed contract); callee contract of _lens_from_eos (C01.P.lens_first_eos)",
+                           "tensor input with the sequence dimension first and one batch dimension; other layouts and packed input: bounded driver; float arithmetic treated as real arithmetic"])
+
+
+def p_vcs(ctx):
+    return [slp_p_vc(True), slp_p_vc(False)]
+
+
 def vcs(ctx):
     out = []
     shapes = [(1, 2, 2), (2, 2, 2), (1, 3, 2)] if ctx.quick else [(1, 1, 2), (1, 2, 2), (2, 2, 2), (1, 3, 2), (1, 3, 3), (2, 3, 2)]
